@@ -4,7 +4,7 @@
     header makes this file — hence Props/C14.vo — stop compiling, whatever the random cases exercise).  The second half
     restates the cell, calibration, re-broadcast and alignment statements about the generated definitions themselves. *)
 From Coq Require Import String Lqa Lia.
-From PV Require Import Lib.Common Model.C14_Pheno Proofs.C14_Pheno Model.C14_Session Gen.C14_Kernel.
+From PV Require Import Lib.Common Model.C14_Pheno Proofs.C14_Pheno Model.C14_Session Model.C14_Alias Proofs.C14_Alias Gen.C14_Kernel.
 Local Open Scope Q_scope.
 
 (** * G_E_Phenotyping.phenotype *)
@@ -105,6 +105,26 @@ Lemma k_tp_cols_model (grp : option (list Z)) tn :
   true_cols grp tn = ("taxa"%string :: (if k_tp_has_grp_col (is_none grp) then ["taxa_grp"%string] else []) ++ tn)%list.
 Proof. destruct grp; reflexivity. Qed.
 Lemma k_true_bv_arg_model A (ptobj gtobj : A) : k_true_bv_arg A ptobj gtobj = gtobj. Proof. reflexivity. Qed.
+(** the taxa column of the TruePhenotyping table, built from the generated definitions: explicit labels are handed to pandas as
+    a fresh copy iff [k_tp_taxa_copied] (the source reads `numpy.array(gvmat.taxa)`), otherwise as the population's own array;
+    generated labels with the generated prefix / width / index.  It is the hand model — which needs [k_tp_taxa_copied = true]:
+    a source that hands over `gvmat.taxa` itself regenerates [false] and this file stops compiling. *)
+Definition k_tp_taxa_column (h : heap) (n : nat) (taxa : option nat) : heap * nat :=
+  match taxa with
+  | Some l => if k_tp_taxa_copied then halloc h (hread h l) else (h, l)
+  | None => halloc h (gen_labels k_tp_taxa_prefix k_tp_taxa_width k_tp_taxa_index n)
+  end.
+Lemma k_tp_taxa_copied_model : k_tp_taxa_copied = true. Proof. reflexivity. Qed.
+Lemma k_tp_taxa_column_model h n taxa : k_tp_taxa_column h n taxa = tp_taxa_column h n taxa.
+Proof.
+  unfold k_tp_taxa_column, tp_taxa_column. destruct taxa as [l|]; [rewrite k_tp_taxa_copied_model; reflexivity|].
+  now rewrite k_tp_taxa_labels.
+Qed.
+(** restated about the generated definitions: a write into the taxa column of the TruePhenotyping table never reaches an array that
+    existed before the call, whether the labels are explicit or generated *)
+Lemma k_tp_column_isolated (h : heap) (n : nat) (taxa : option nat) (i : nat) (v : str) (l : nat) : (l < length h)%nat ->
+  let '(h', c) := k_tp_taxa_column h n taxa in hread (hwrite h' c i v) l = hread h l.
+Proof. rewrite k_tp_taxa_column_model. apply tp_column_isolated. Qed.
 
 (** * MeanPhenotypicBreedingValue.estimate *)
 Lemma k_groupby_model : k_dropna = false /\ k_as_index = false /\ k_agg = "mean"%string.
